@@ -34,6 +34,8 @@ def run(chk, tier, seed):
             storegen.forest_scenarios(800, seed, maxnodes=5, maxtrees=6)
     st = {}
     n, ndrift = sc.run_and_validate(chk, scns, CLAUSES, stats=st)
+    from storecli import cli_family
+    ncli, ncliruns = cli_family(chk, tier, seed, st, CLAUSES, "c09cli")
     nontriv = sum(1 for s in scns if len({x["job"] for x in s["runs"][0]["spans"]}) >= 2)
     cov = {"states": m["states"] + st.get("conf_states", 0) + st.get("obs_states", 0),
            "transitions": m["transitions"] + st.get("conf_generated", 0) + st.get("obs_generated", 0),
@@ -41,7 +43,7 @@ def run(chk, tier, seed):
            "rule": "all pairs of call-tree shapes up to the tier's size (same / different workflow name) x batch sizes, "
                    "plus seeded forests of 1-5 traces with repeated shapes, each in four presentations (order of ingestion, batch size); non-trivial = store "
                    "with at least two traces",
-           "model_runs": m["runs"], "model_drift_executions": ndrift, "conformance_action_counts": st.get("actions", {}),
+           "cli_histories": ncli, "cli_process_runs": ncliruns, "model_runs": m["runs"], "model_drift_executions": ndrift, "conformance_action_counts": st.get("actions", {}),
            "exhaustive": False}
     return cov, ["xxh64 collisions and event types ending in 16 hex digits are outside the generated inputs",
                  "one root span per trace; no span has its parent in another trace"]
